@@ -28,8 +28,8 @@ ENGINE = 'E2 bfs'
 LEVEL = 'model_checking'
 LEVEL_TEXT = (
     'Explicit-state breadth-first exploration of every statement history up to the stated depth '
-    '(quick: depth 3 from the empty session; thorough: depth 4 from the empty session plus depth 3 '
-    'from four populated roots incl. OPTION BASE 1) over a 21-statement alphabet, executed on real '
+    '(quick: depth 3 from the empty session, depth 2 from two populated roots; thorough: depth 4 from the empty session plus depth 3 '
+    'from four populated roots incl. OPTION BASE 1) over a 22-statement alphabet, executed on real '
     'pcbasic Sessions, de-duplicated on the complete variable/array/string-space state. In every '
     'reached state every live scalar and every array element is checked through VARPTR, VARPTR$ and '
     'PEEK against an independent reference of values and byte encodings.')
@@ -44,6 +44,8 @@ RULE = ('all histories over the op alphabet up to the depth, merged on the canon
         'a case class is (operation, outcome) and (variable kind, position of its array among the '
         'arrays); non-trivial = anything but an assignment to a fresh scalar')
 ASSUMPTIONS = [
+    'sessions are created with video=\'cga\' (3x cheaper to build; variable memory does not depend '
+    'on the video adapter)',
     'internal seam (state key and variable-area bounds only): DataSegment.var_start/var_current, '
     'Arrays.current/_array_memory/_dims/_buffers/_base, Scalars._vars/_var_memory, '
     'StringSpace._strings/current/_temp',
@@ -73,7 +75,7 @@ PROGRAM = [b'10 D$="pqrs":END', b'20 S$(1)="tu":END']
 #   ('goto', line, primitive)       run a stored program line whose effect is `primitive`
 OPS = [
     [('let', ('A%',), 257)],
-    [('let', ('B!',), F(3, 2))],
+    [('let', ('BCD!',), F(3, 2))],
     [('let', ('C#',), F(-9, 4))],
     [('let', ('D$',), b'abc')],
     [('cat', ('D$',), ('D$',), b'xy')],
@@ -283,7 +285,7 @@ def _H():
 
 def new_session():
     H = _H()
-    s = H.new_session(peek_values={})
+    s = H.new_session(video='cga', peek_values={})
     for line in PROGRAM:
         r = H.run(s, line)
         if r.exc is not None or r.err is not None:
@@ -517,8 +519,9 @@ def work_bfs(shard):
 
 def legs(ctx):
     if ctx.quick:
-        plan = [(0, 3)]
-        bound = 'all histories of <= 3 statements over %d ops from the empty session' % len(OPS)
+        plan = [(0, 3), (1, 2), (3, 2)]
+        bound = ('all histories of <= 3 statements over %d ops from the empty session, of <= 2 statements '
+                 'from the arrays-first root and from the OPTION BASE 1 root' % len(OPS))
     else:
         plan = [(0, 4), (1, 3), (2, 3), (3, 3), (4, 3)]
         bound = ('all histories of <= 4 statements over %d ops from the empty session and of <= 3 '
